@@ -7,6 +7,7 @@ import (
 	"flag"
 	"fmt"
 	"os"
+	"runtime"
 	"time"
 
 	"verif/sim"
@@ -25,19 +26,19 @@ type replayFile struct {
 }
 
 type result struct {
-	T      string           `json:"t"`
-	Seed   uint64           `json:"seed"`
-	Index  uint64           `json:"index"`
-	Status string           `json:"status,omitempty"`
-	Oracle string           `json:"oracle,omitempty"`
-	Msg    string           `json:"msg,omitempty"`
-	Digest string           `json:"digest,omitempty"`
-	Stats  map[string]int64 `json:"stats,omitempty"`
-	SimNS  int64            `json:"sim_ns,omitempty"`
-	Nontrivial bool         `json:"nontrivial,omitempty"`
-	TapeLen int             `json:"tape_len,omitempty"`
-	Replay string           `json:"replay,omitempty"`
-	Sample *replayFile      `json:"sample,omitempty"`
+	T          string           `json:"t"`
+	Seed       uint64           `json:"seed"`
+	Index      uint64           `json:"index"`
+	Status     string           `json:"status,omitempty"`
+	Oracle     string           `json:"oracle,omitempty"`
+	Msg        string           `json:"msg,omitempty"`
+	Digest     string           `json:"digest,omitempty"`
+	Stats      map[string]int64 `json:"stats,omitempty"`
+	SimNS      int64            `json:"sim_ns,omitempty"`
+	Nontrivial bool             `json:"nontrivial,omitempty"`
+	TapeLen    int              `json:"tape_len,omitempty"`
+	Replay     string           `json:"replay,omitempty"`
+	Sample     *replayFile      `json:"sample,omitempty"`
 }
 
 func main() {
@@ -54,7 +55,18 @@ func main() {
 	samples := flag.Int("samples", 0, "attach the full trace of the first N runs")
 	rawtape := flag.Int("rawtape", 0, "print a replay file holding the first N raw tape values of run -start (no execution)")
 	maxDumps := flag.Int("max-dumps", 5, "at most this many violation replay files per worker")
+	watchdog := flag.Float64("watchdog", 45, "per-run wall-clock limit in seconds: on expiry dump all goroutines and exit 3")
 	flag.Parse()
+
+	// liveness watchdog of the harness (real time is used for nothing else)
+	arm := func() *time.Timer {
+		return time.AfterFunc(time.Duration(*watchdog*float64(time.Second)), func() {
+			buf := make([]byte, 1<<20)
+			n := runtime.Stack(buf, true)
+			fmt.Fprintf(os.Stderr, "WATCHDOG: run exceeded %.0fs\n%s\n", *watchdog, buf[:n])
+			os.Exit(3)
+		})
+	}
 
 	if *rawtape > 0 {
 		seed := sim.RunSeed(*batch, *prop, *start)
@@ -92,7 +104,9 @@ func main() {
 		}
 		emit(result{T: "begin", Seed: rf.Seed})
 		r := sim.NewRun(rf.Property, rf.Seed, sim.NewReplayTape(rf.Tape))
+		wd := arm()
 		o := sim.RunProp(rf.Property, r)
+		wd.Stop()
 		res := result{T: "end", Seed: rf.Seed, Status: o.Status, Oracle: o.Oracle, Msg: o.Msg, Digest: r.Digest(), Stats: r.Stats, TapeLen: len(rf.Tape)}
 		if *dump != "" {
 			nf := replayFile{Property: rf.Property, Seed: rf.Seed, Oracle: o.Oracle, Msg: o.Msg, Tape: rf.Tape, Marks: r.T.Marks, Digest: r.Digest(), Events: r.Events, Status: o.Status}
@@ -113,7 +127,9 @@ func main() {
 		seed := sim.RunSeed(*batch, *prop, idx)
 		emit(result{T: "begin", Seed: seed, Index: idx})
 		r := sim.NewRun(*prop, seed, sim.NewGenTape(seed))
+		wd := arm()
 		o := sim.RunProp(*prop, r)
+		wd.Stop()
 		res := result{T: "end", Seed: seed, Index: idx, Status: o.Status, Oracle: o.Oracle, Msg: o.Msg, Digest: r.Digest(), Stats: r.Stats,
 			SimNS: r.SimNS, Nontrivial: r.IsNontrivial(), TapeLen: len(r.T.Vals)}
 		if o.Status != "ok" || int(i) < *samples {
